@@ -10,6 +10,7 @@ require (
 	github.com/pentops/j5 v0.0.0
 	github.com/pentops/log.go v0.0.0-20250304233315-e0210b7a6dc3
 	github.com/shopspring/decimal v1.4.0
+	google.golang.org/genproto/googleapis/api v0.0.0-20250324211829-b45e905df463
 	google.golang.org/protobuf v1.36.6
 	pgregory.net/rapid v1.3.0
 )
@@ -31,7 +32,6 @@ require (
 	golang.org/x/sync v0.12.0 // indirect
 	golang.org/x/sys v0.31.0 // indirect
 	golang.org/x/text v0.23.0 // indirect
-	google.golang.org/genproto/googleapis/api v0.0.0-20250324211829-b45e905df463 // indirect
 	google.golang.org/genproto/googleapis/rpc v0.0.0-20250324211829-b45e905df463 // indirect
 	google.golang.org/grpc v1.71.0 // indirect
 	gopkg.in/yaml.v3 v3.0.1 // indirect
